@@ -136,6 +136,19 @@ func c20Ops() []c20Op {
 			}
 			return sb.String() + " closed"
 		}},
+		{"Parse; Reset; Deserialize into it; Parse(another)", func(id int) string {
+			// an object its owner has reset is still the owner's: it is refilled as a Deserialize
+			// destination while this goroutine (and others) go on parsing without reuse
+			pj, err := simdjson.Parse([]byte(c20Small[id]), nil)
+			if err != nil {
+				return "ERR " + err.Error()
+			}
+			pj.Reset()
+			d := simdjson.NewSerializer()
+			out, derr := d.Deserialize(c20Blobs[(id+1)%3][0], pj)
+			other, perr := simdjson.Parse([]byte(c20Small[(id+2)%3]), nil)
+			return renderOf(out, derr) + " / " + renderOf(other, perr) + " / " + renderOf(out, derr)
+		}},
 		{"traverse+marshal", func(id int) string {
 			pj, err := simdjson.Parse([]byte(c20Small[id]), nil)
 			if err != nil {
